@@ -162,7 +162,15 @@ def make_rundir(spec, root=None):
     with open(os.path.join(d, "infretis.toml"), "wb") as fh:
         tomli_w.dump(lattice_config(spec), fh)
     shutil.copy(os.path.join(HERE, "engines", "latticeeng.py"), os.path.join(d, "latticeeng.py"))
-    for i, orders in enumerate(lattice_start_orders(spec["n"])):
+    starts = lattice_start_orders(spec["n"])
+    if spec.get("full_start"):
+        # every plus path climbs to the top level (valid in all plus ensembles) and dwells at its own level for its own time:
+        # one coupled block of unequal high-acceptance weights from the first step on
+        n = spec["n"]
+        for k in range(n - 1):
+            up = list(range(0, n))
+            starts[k + 1] = up[: k + 2] + [k, k + 1] * (k + 1) + up[k + 2 :] + up[-2::-1]
+    for i, orders in enumerate(starts):
         write_load_path(os.path.join(d, spec.get("load_dir") or "load"), i, orders, origin=float(spec.get("origin", 0.0) or 0.0))
     if spec.get("data_dir"):  # the directory for the data file is the user's to provide
         os.makedirs(os.path.join(d, spec["data_dir"]), exist_ok=True)
@@ -297,8 +305,20 @@ class Driver:
 
 
 class FakeRunner:
-    def __init__(self, drv):
+    """The public interface of infretis.asyncrunner.aiorunner (submit_work, n_workers, stop, start, set_task)."""
+
+    def __init__(self, drv, state=None):
         self.drv = drv
+        self._n = getattr(state, "workers", None)
+
+    def n_workers(self):
+        return self._n
+
+    def start(self):
+        pass
+
+    def set_task(self, task_f):
+        pass
 
     def submit_work(self, md_items):
         self.drv.hand_over()
@@ -809,7 +829,7 @@ def _segment_child(seg, flags, carry):
         try:
             drv0 = Driver(Policy("oldest", 0, None), None, None, tis.run_md)
             o_runner = sched.setup_runner
-            sched.setup_runner = lambda state: (FakeRunner(drv0), FakeFutures(drv0))
+            sched.setup_runner = lambda state: (FakeRunner(drv0, state), FakeFutures(drv0))
             try:
                 sched.scheduler(setup_config("infretis.toml"))
             finally:
@@ -891,7 +911,7 @@ def _segment_child(seg, flags, carry):
     REPEX_state.prep_md_items = prep
     REPEX_state.treat_output = treat
     repex.write_to_pathens = archive
-    sched.setup_runner = lambda state: (FakeRunner(drv), FakeFutures(drv))
+    sched.setup_runner = lambda state: (FakeRunner(drv, state), FakeFutures(drv))
     if seg.get("zeroswap") is not None:
         o_init = REPEX_state.__init__
 
